@@ -167,6 +167,8 @@ impl GenCfg {
         c.rep = true;
         c.iter_then = true;
         c.folds = true;
+        // the statement's "foldl and foldr" have *_with variants with their own implementations
+        c.fold_with = true;
         c.exactly = true;
         c.cfg_rep = true;
         c
